@@ -88,9 +88,9 @@ PROPS = {
                 technique='exact (<=>) postconditions on fri_verify, fri_verify_layers (spec layers_walk), verify_last_layer, compute_next_layer',
                 note='Not decided: rejection of functions of degree >= bound except with probability decaying in the number of queries (FRI soundness theorem).'),
     'C13': dict(quick=['core'], thorough=['core'],
-                claim='PublicInput::get_hash is proved to return poseidon_many of exactly the sequence listed in the statement, in order: [nvf (stone6)] ++ [log_n_steps, rc_min, rc_max, layout] ++ dynamic params ++ flattened segments ++ [padding addr, padding value, n_pages, main page length, pedersen chain of the main page incl. 2*len] ++ flattened (start,size,hash) headers; prod is not bound.',
-                technique='functional postcondition + loop invariant (pedersen chain) on PublicInput::get_hash',
-                note='The three iterator statements enter through hoisting rules with assumed std semantics; the 340-field dynamic-params flattening is an uninterpreted sequence in this unit. Injectivity = hash injectivity (idealised). Not decided: reproduction of the prover\'s first challenges.'),
+                claim='PublicInput::get_hash is proved to return poseidon_many of exactly the sequence listed in the statement, in order: [nvf (stone6)] ++ [log_n_steps, rc_min, rc_max, layout] ++ dynamic params ++ flattened segments ++ [padding addr, padding value, n_pages, main page length, pedersen chain of the main page incl. 2*len] ++ flattened (start,size,hash) headers; prod is not bound. The 340 dynamic parameters are proved to be flattened in declaration order (oracle generated from the struct definition on every run). Machine-checked binding lemma, under the idealisation that Poseidon and Pedersen are injective: two public inputs with the same number of segments and dynamic parameters present in both or neither that have EQUAL seeds agree on the head fields, every dynamic parameter, every segment bound, the padding cell, the main-page length and every main-page address and value, the number of continuous pages and every header\'s address, size and hash (both Stone versions are checked on every run).',
+                technique='functional postcondition + loop invariant (pedersen chain) on PublicInput::get_hash; contracts on both From impls of DynamicParams; verified lemma lemma_seed_binds_every_field (templates/air/public_input_binding.rs)',
+                note='The three iterator statements enter through hoisting rules with assumed std semantics. Hash injectivity is an idealisation (opt-in axioms). Not decided: reproduction of the prover\'s first challenges (recorded data).'),
     'C14': dict(quick=['core'], thorough=['core'],
                 claim='For the six static layouts (recursive, dex, small, recursive_with_poseidon, starknet, starknet_with_keccak) validate_public_input is proved to accept EXACTLY the inputs satisfying the memory-layout oracle pi_ok of the layout (step count = trace length/16, segment count, layout code, 0<=rc_min<rc_max<=2^16-1, output usage below 2^128, every builtin usage a whole number of instances not exceeding floor(trace_length/row_ratio), with the per-layout table of segments / cells per instance / row ratios), for every trace length (this holds since fix d0bb0cf; before it three obligations failed). verify_public_input: no panic for any input (since fixes 9ea2566, 7494f86) and the positional facts the code establishes; the address-based reading of the returned hashes demanded by the statement FAILS on the current tree in every layout: recorded as known findings with a concrete witness.',
                 technique='exact (<=>) and per-conjunct postconditions on LayoutTrait::validate_public_input / verify_public_input of each layout, field-division lemma lemma_builtin_checked; per-layout oracles generated from the layout constants (vf/gen_layout_mid.py)',
@@ -100,9 +100,9 @@ PROPS = {
                 technique='loop invariants on Page::get_product, get_continuous_pages_product, get_diluted_product; functional postconditions on the memory product functions; verified lemmas lemma_dil_shift, lemma_u_periodic, lemma_block, lemma_diluted_doubling, lemma_state, lemma_diluted_is_recurrence (templates/air/diluted_lemma.rs)',
                 note='The in-function assert! (total length <= column size) and the two field divisions are C18 obligations of the callers (one known finding). n_bits > 64 is outside the contract (every layout passes the constant 16).'),
     'C08': dict(quick=['core'], thorough=['core'],
-                claim='Every Transcript operation is proved equal to a spec of the absorb/squeeze state machine (squeeze = poseidon(digest,counter), counter+1; absorb = poseidon_many([digest+1]++msg), counter reset); protocol functions are proved to perform exactly the scripted operations in order.',
-                technique='postconditions over the transcript state machine on Transcript::*, pow commit, generate_queries',
-                note='Not decided: agreement with challenges logged by the prover (recorded data); "changes when a message changes" relies on hash injectivity (idealised).'),
+                claim='Every Transcript operation is proved equal to a spec of the absorb/squeeze state machine (squeeze = poseidon(digest,counter), counter+1; absorb = poseidon_many([digest+1]++msg), counter reset); protocol functions are proved to perform exactly the scripted operations in order (so every challenge is a function of the seed and of exactly the messages absorbed before it, and of nothing later). Machine-checked dependence lemmas under the idealisation that Poseidon is injective: a challenge determines digest and counter; challenges drawn without an intervening message are pairwise different; the digest the queries are drawn from determines the seed and EVERY commit-phase message (trace roots, composition root, each out-of-domain value and their number, each FRI root, each last-layer coefficient and their number, the nonce), i.e. changing any one of them changes it.',
+                technique='postconditions over the transcript state machine on Transcript::*, pow commit, generate_queries; verified lemmas lemma_absorb1_inj, lemma_absorb_vec_inj, lemma_rounds_inj, lemma_consecutive_challenges_differ, lemma_commit_digest_binds_every_message (templates/stark/fs_lemmas.rs)',
+                note='Not decided: agreement with challenges logged by the prover (recorded data). Hash injectivity is an idealisation (opt-in axioms, used only by the dependence lemmas; a vacuity canary checks that all axioms together do not prove false).'),
     'C09': dict(quick=['core'], thorough=['core'],
                 claim='verify_pow is proved to accept exactly when H(H(0x0123456789abcded||digest||n)||nonce) STARTS WITH n ZERO BITS (bit-level definition: bit i = bit 7-(i mod 8) of byte i div 8), through the machine-checked lemma that this is the comparison the code performs, be_nat(hash[0..16]) < 2^(128-n); Config::validate accepts exactly 20..=50; commit checks the pre-state digest and absorbs the nonce only on success.',
                 technique='exact (<=>) postconditions on verify_pow, pow::Config::validate, UnsentCommitment::commit; verified lemmas lemma_byte, lemma_leading_zero_bits, lemma_threshold_is_zero_bits (templates/pow_bits.rs)',
